@@ -55,185 +55,375 @@ Section VarVM.
     - rewrite nth_lset_other by lia. rewrite app_nth1 by lia. apply H. lia.
   Qed.
 
-  Lemma set_nth_length i v rho : length (P.set_nth i v rho) = length rho.
-  Proof. revert i; induction rho as [|x r IH]; intros [|i]; cbn; auto. Qed.
-  Lemma nth_set_nth_same i v rho d : i < length rho -> nth i (P.set_nth i v rho) d = v.
-  Proof. revert i; induction rho as [|x r IH]; intros [|i] H; cbn in *; try lia; [reflexivity|apply IH; lia]. Qed.
-  Lemma nth_set_nth_other i j v rho d : i <> j -> nth j (P.set_nth i v rho) d = nth j rho d.
-  Proof. revert i j; induction rho as [|x r IH]; intros [|i] [|j] H; cbn; try reflexivity; try lia. apply IH. lia. Qed.
-
   Lemma vm_inv_set rho room s i v : vm_inv rho room s -> i < length rho ->
     vm_inv (P.set_nth i v rho) room (upd_globals s (lset (globals s) i (inj v))).
   Proof.
-    intros [Hl H] Hi. unfold vm_inv. cbn [globals upd_globals]. rewrite length_lset, set_nth_length.
+    intros [Hl H] Hi. unfold vm_inv. cbn [globals upd_globals]. rewrite length_lset, PF.set_nth_length.
     split; [exact Hl|]. intros j Hj.
     destruct (Nat.eq_dec j i) as [->|Hd].
-    - rewrite nth_lset_same by lia. rewrite nth_set_nth_same by lia. reflexivity.
-    - rewrite nth_lset_other by lia. rewrite nth_set_nth_other by lia. apply H. exact Hj.
+    - rewrite nth_lset_same by lia. rewrite PF.nth_set_nth_same by lia. reflexivity.
+    - rewrite nth_lset_other by lia. rewrite PF.nth_set_nth_other by lia. apply H. exact Hj.
   Qed.
-  (* ---------------------------------------------------------------- one statement *)
-  Definition state_after (k : nat) (s : mstate) (st : P.stmt) (v : F.sval) : mstate :=
-    match st with
-    | P.SDecl _ => upd_globals s (lset (globals s) k (inj v))
-    | P.SSet i _ => upd_globals s (lset (globals s) i (inj v))
-    | P.SExpr _ => s
-    end.
-
+  (* ---------------------------------------------------------------- positions *)
   Lemma at0 (A : Type) (l1 : list A) x l2 : nth_error (l1 ++ x :: l2) (length l1) = Some x.
   Proof. induction l1; cbn; auto. Qed.
   Lemma at1 (l1 : list N) x y l2 : nth (length l1 + 1) (l1 ++ x :: y :: l2) 0%N = y.
   Proof. induction l1; cbn; auto. Qed.
+  Lemma need_pos e : 1 <= F.need e.
+  Proof. induction e; cbn [F.need]; lia. Qed.
 
-  Lemma vm_stmt rho s k st base pre post :
-    length rho = k -> globals_ok s rho -> PF.wf_stmt k st = true ->
-    instr = pre ++ fst (P.stmt_code k base st) ++ post ->
-    (forall i kk, nth_error (snd (P.stmt_code k base st)) i = Some kk -> nth (base + i) (code_consts c) (KInt 0) = kk) ->
-    below + F.need (P.stmt_exp st) <= MAXSTACK ->
-    exists n, forall f,
-      match F.sev rho (P.stmt_exp st) with
-      | inr x => runs (n + f) (length pre) [] s = (RErr (cls x) s, defers)
-      | inl v => runs (n + f) (length pre) [] s =
-                 runs f (length pre + length (fst (P.stmt_code k base st)))
-                      (if P.is_expr_stmt st then [inj v] else []) (state_after k s st v)
-      end.
+  (* ---------------------------------------------------------------- the statements of a branch *)
+  (* [room]: global slots still to be claimed by later declarations; branches declare nothing *)
+  Lemma vm_simple rho room s m base pre post :
+    vm_inv rho room s -> P.wf_simple (length rho) m = true ->
+    instr = pre ++ fst (P.simple_code base m) ++ post ->
+    (forall i kk, nth_error (snd (P.simple_code base m)) i = Some kk -> nth (base + i) (code_consts c) (KInt 0) = kk) ->
+    below + F.need (P.simple_exp m) <= MAXSTACK ->
+    exists n s',
+      (match P.run_simple rho m with inl (rho', _) => vm_inv rho' room s' | inr _ => True end) /\
+      forall f,
+        match P.run_simple rho m with
+        | inr x => runs (n + f) (length pre) [] s = (RErr (cls x) s', defers)
+        | inl (rho', v) => runs (n + f) (length pre) [] s =
+                           runs f (length pre + length (fst (P.simple_code base m)))
+                                (if P.is_expr_simple m then [inj v] else []) s'
+        end.
   Proof.
-    intros Hk Hg Hwf Hi Hc Hn.
-    destruct st as [e|i e|e]; cbn [P.stmt_code P.stmt_exp PF.wf_stmt P.is_expr_stmt state_after] in *.
-    - (* x := e *)
-      destruct (F.cexp base e) as [ce ke] eqn:Ee. cbn [fst snd] in *.
-      assert (Hi' : instr = pre ++ fst (F.cexp base e) ++ ([opStoreGlobal; N.of_nat k] ++ post))
-        by (rewrite Ee; cbn [fst]; rewrite Hi, <- !app_assoc; reflexivity).
-      assert (Hc' : forall i kk, nth_error (snd (F.cexp base e)) i = Some kk -> nth (base + i) (code_consts c) (KInt 0) = kk)
-        by (rewrite Ee; exact Hc).
-      rewrite <- Hk in Hwf.
-      destruct (vm_scalar tabs c below frames free defers is_main s rho Hg e base pre _ [] Hwf Hi' Hc' ltac:(cbn [length]; lia)) as [n Hr].
-      rewrite Ee in Hr. cbn [fst] in Hr. unfold outcome_of in Hr.
-      exists (n + 1). intros f. destruct (F.sev rho e) as [v|x].
-      + rewrite <- Nat.add_assoc, Hr. cbn [Nat.add].
-        assert (Hx : instr = (pre ++ ce) ++ opStoreGlobal :: N.of_nat k :: post) by (rewrite Hi, <- !app_assoc; reflexivity).
-        rewrite (step_store f (length pre + length ce) [] (inj v) s) by (rewrite Hx, <- app_length; apply at0).
-        assert (E : nth (length pre + length ce + 1) instr 0%N = N.of_nat k) by (rewrite Hx, <- app_length; apply at1).
-        rewrite E, Nat2N.id, app_length. cbn [length].
-        replace (length pre + (length ce + 2)) with (length pre + length ce + 2) by lia. reflexivity.
-      + rewrite <- Nat.add_assoc, Hr. reflexivity.
-    - (* x = e *)
-      apply andb_true_iff in Hwf. destruct Hwf as [_ Hwf].
+    intros Hinv Hwf Hi Hc Hn. pose proof (vm_inv_globals_ok rho room s Hinv) as Hg.
+    destruct m as [i e|e]; cbn [P.simple_code P.simple_exp P.wf_simple P.is_expr_simple P.run_simple] in *.
+    - apply andb_true_iff in Hwf. destruct Hwf as [Hilt Hwf]. apply Nat.ltb_lt in Hilt.
       destruct (F.cexp base e) as [ce ke] eqn:Ee. cbn [fst snd] in *.
       assert (Hi' : instr = pre ++ fst (F.cexp base e) ++ ([opStoreGlobal; N.of_nat i] ++ post))
         by (rewrite Ee; cbn [fst]; rewrite Hi, <- !app_assoc; reflexivity).
       assert (Hc' : forall j kk, nth_error (snd (F.cexp base e)) j = Some kk -> nth (base + j) (code_consts c) (KInt 0) = kk)
         by (rewrite Ee; exact Hc).
-      rewrite <- Hk in Hwf.
       destruct (vm_scalar tabs c below frames free defers is_main s rho Hg e base pre _ [] Hwf Hi' Hc' ltac:(cbn [length]; lia)) as [n Hr].
       rewrite Ee in Hr. cbn [fst] in Hr. unfold outcome_of in Hr.
-      exists (n + 1). intros f. destruct (F.sev rho e) as [v|x].
-      + rewrite <- Nat.add_assoc, Hr. cbn [Nat.add].
+      destruct (F.sev rho e) as [v|x].
+      + exists (n + 1), (upd_globals s (lset (globals s) i (inj v))).
+        split; [apply vm_inv_set; assumption|]. intros f.
+        rewrite <- Nat.add_assoc, Hr. cbn [Nat.add].
         assert (Hx : instr = (pre ++ ce) ++ opStoreGlobal :: N.of_nat i :: post) by (rewrite Hi, <- !app_assoc; reflexivity).
         rewrite (step_store f (length pre + length ce) [] (inj v) s) by (rewrite Hx, <- app_length; apply at0).
         assert (E : nth (length pre + length ce + 1) instr 0%N = N.of_nat i) by (rewrite Hx, <- app_length; apply at1).
         rewrite E, Nat2N.id, app_length. cbn [length].
         replace (length pre + (length ce + 2)) with (length pre + length ce + 2) by lia. reflexivity.
-      + rewrite <- Nat.add_assoc, Hr. reflexivity.
-    - (* e *)
-      rewrite <- Hk in Hwf.
-      destruct (vm_scalar tabs c below frames free defers is_main s rho Hg e base pre post [] Hwf Hi Hc ltac:(cbn [length]; lia)) as [n Hr].
-      unfold outcome_of in Hr. exists n. intros f. rewrite Hr. destruct (F.sev rho e); reflexivity.
+      + exists n, s. split; [exact Logic.I|]. intros f. exact (Hr f).
+    - destruct (vm_scalar tabs c below frames free defers is_main s rho Hg e base pre post [] Hwf Hi Hc ltac:(cbn [length]; lia)) as [n Hr].
+      unfold outcome_of in Hr. exists n, s.
+      destruct (F.sev rho e) as [v|x]; (split; [try exact Hinv; exact Logic.I|]); intros f; exact (Hr f).
   Qed.
-  (* ---------------------------------------------------------------- the whole statement list *)
-  Lemma need_pos e : 1 <= F.need e.
-  Proof. induction e; cbn [F.need]; lia. Qed.
 
-  Lemma vm_inv_next rho s k st v : length rho = k -> PF.wf_stmt k st = true ->
-    forall room, vm_inv rho (P.ndecls [st] + room) s ->
-    vm_inv (PF.next_rho rho st v) room (state_after k s st v) /\ length (PF.next_rho rho st v) = PF.next_k k st.
+  Lemma simples_need_cons m r : P.simples_need (m :: r) = Nat.max (F.need (P.simple_exp m)) (P.simples_need r).
+  Proof. reflexivity. Qed.
+  Lemma simples_need_pos l : 1 <= P.simples_need l.
+  Proof. induction l as [|m r IH]; [cbn; lia|rewrite simples_need_cons; lia]. Qed.
+
+  Lemma vm_simples : forall l rho room s base pre post last,
+    l <> [] -> vm_inv rho room s -> forallb (P.wf_simple (length rho)) l = true ->
+    instr = pre ++ fst (P.simples_code base l) ++ post ->
+    (forall i kk, nth_error (snd (P.simples_code base l)) i = Some kk -> nth (base + i) (code_consts c) (KInt 0) = kk) ->
+    below + P.simples_need l <= MAXSTACK ->
+    exists n s',
+      (match P.run_simples rho l last with inl (rho', _) => vm_inv rho' room s' | inr _ => True end) /\
+      forall f,
+        match P.run_simples rho l last with
+        | inr x => runs (n + f) (length pre) [] s = (RErr (cls x) s', defers)
+        | inl (rho', v) => runs (n + f) (length pre) [] s =
+                           runs f (length pre + length (fst (P.simples_code base l))) [inj v] s'
+        end.
   Proof.
-    intros Hk Hwf room Hinv. destruct st as [e|i e|e]; cbn [PF.next_rho state_after PF.next_k P.ndecls PF.wf_stmt] in *.
-    - subst k. split; [apply vm_inv_decl; exact Hinv|rewrite app_length; cbn; lia].
-    - apply andb_true_iff in Hwf. destruct Hwf as [Hi _]. apply Nat.ltb_lt in Hi. subst k.
-      split; [apply vm_inv_set; assumption|apply set_nth_length].
-    - split; [exact Hinv|exact Hk].
+    induction l as [|m r IH]; intros rho room s base pre post last Hne Hinv Hwf Hi Hc Hn; [contradiction|].
+    cbn [forallb] in Hwf. apply andb_true_iff in Hwf. destruct Hwf as [Hw0 Hwr].
+    rewrite simples_need_cons in Hn. rewrite PF.run_simples_cons.
+    destruct r as [|m2 r2].
+    - (* the last statement of the branch *)
+      rewrite PF.simples_code_single in Hi, Hc |- *.
+      destruct (P.simple_code base m) as [cc ks] eqn:Es. cbn [fst snd] in *.
+      assert (Hi' : instr = pre ++ fst (P.simple_code base m) ++ ((if P.is_expr_simple m then [] else [opNil]) ++ post))
+        by (rewrite Es; cbn [fst]; rewrite Hi, <- !app_assoc; reflexivity).
+      assert (Hc' : forall i kk, nth_error (snd (P.simple_code base m)) i = Some kk -> nth (base + i) (code_consts c) (KInt 0) = kk)
+        by (rewrite Es; exact Hc).
+      destruct (vm_simple rho room s m base pre _ Hinv Hw0 Hi' Hc' ltac:(lia)) as [n [s1 [Hinv1 Hr]]].
+      rewrite Es in Hr. cbn [fst] in Hr.
+      destruct (P.run_simple rho m) as [[rho1 v1]|x] eqn:Er.
+      + cbn [P.run_simples].
+        destruct (P.is_expr_simple m) eqn:Ex.
+        * exists n, s1. split; [exact Hinv1|]. intros f. rewrite Hr, app_nil_r. reflexivity.
+        * exists (n + 1), s1. split; [exact Hinv1|]. intros f. rewrite <- Nat.add_assoc, Hr. cbn [Nat.add].
+          assert (Hx : instr = (pre ++ cc) ++ opNil :: post) by (rewrite Hi, <- !app_assoc; reflexivity).
+          rewrite (step_push tabs c below frames free defers is_main s1 f (length pre + length cc) [] opNil VNil);
+            [|rewrite Hx, <- app_length; apply at0|auto|pose proof (need_pos (P.simple_exp m)); cbn [length]; lia].
+          rewrite app_length. cbn [length].
+          replace (length pre + (length cc + 1)) with (S (length pre + length cc)) by lia.
+          destruct m; try discriminate. cbn [P.run_simple] in Er. destruct (F.sev rho e); inversion Er. reflexivity.
+      + exists n, s1. split; [exact Logic.I|]. intros f. exact (Hr f).
+    - (* more statements follow *)
+      assert (Hr2 : m2 :: r2 <> []) by discriminate.
+      rewrite PF.simples_code_cons2 in Hi, Hc |- *.
+      destruct (P.simple_code base m) as [cc ks] eqn:Es.
+      destruct (P.simples_code (base + length ks) (m2 :: r2)) as [cr kr] eqn:Ep. cbn [fst snd] in *.
+      set (pops := if P.is_expr_simple m then [opPopTop] else []) in *.
+      assert (Hi' : instr = pre ++ fst (P.simple_code base m) ++ (pops ++ cr ++ post))
+        by (rewrite Es; cbn [fst]; rewrite Hi, <- !app_assoc; reflexivity).
+      assert (Hc' : forall i kk, nth_error (snd (P.simple_code base m)) i = Some kk -> nth (base + i) (code_consts c) (KInt 0) = kk).
+      { rewrite Es. cbn [snd]. intros i kk Hik. apply Hc. rewrite nth_error_app1; [exact Hik|]. apply nth_error_Some. congruence. }
+      destruct (vm_simple rho room s m base pre _ Hinv Hw0 Hi' Hc' ltac:(lia)) as [n [s1 [Hinv1 Hr]]].
+      rewrite Es in Hr. cbn [fst] in Hr.
+      destruct (P.run_simple rho m) as [[rho1 v1]|x] eqn:Er.
+      2:{ exists n, s1. split; [exact Logic.I|]. intros f. exact (Hr f). }
+      pose proof (PF.run_simple_length rho m rho1 v1 Er) as Hlen1. rewrite <- Hlen1 in Hwr.
+      set (Q := pre ++ cc ++ pops).
+      assert (HQ : length Q = length pre + length cc + length pops) by (unfold Q; rewrite !app_length; lia).
+      assert (Hi2 : instr = Q ++ fst (P.simples_code (base + length ks) (m2 :: r2)) ++ post)
+        by (rewrite Ep; cbn [fst]; rewrite Hi; unfold Q; rewrite <- !app_assoc; reflexivity).
+      assert (Hc2 : forall i kk, nth_error (snd (P.simples_code (base + length ks) (m2 :: r2))) i = Some kk ->
+                                 nth (base + length ks + i) (code_consts c) (KInt 0) = kk).
+      { rewrite Ep. cbn [snd]. intros i kk Hik. rewrite <- Nat.add_assoc. apply Hc.
+        rewrite nth_error_app2 by lia. replace (length ks + i - length ks) with i by lia. exact Hik. }
+      destruct (IH rho1 room s1 (base + length ks) Q post v1 Hr2 Hinv1 Hwr Hi2 Hc2 ltac:(lia)) as [n2 [s2 [Hinv2 Hr2']]].
+      rewrite Ep in Hr2'. cbn [fst] in Hr2'.
+      assert (Hglue : exists k, forall f, runs (k + f) (length pre) [] s = runs f (length Q) [] s1).
+      { destruct (P.is_expr_simple m) eqn:Ex; subst pops.
+        - exists (n + 1). intros f. rewrite <- Nat.add_assoc, Hr. cbn [Nat.add].
+          assert (Hx : instr = (pre ++ cc) ++ opPopTop :: (cr ++ post)) by (rewrite Hi, <- !app_assoc; reflexivity).
+          rewrite (step_pop f (length pre + length cc) [] (inj v1) s1) by (rewrite Hx, <- app_length; apply at0).
+          rewrite HQ. cbn [length]. replace (length pre + length cc + 1) with (S (length pre + length cc)) by lia. reflexivity.
+        - exists n. intros f. rewrite Hr, HQ. cbn [length]. rewrite Nat.add_0_r. reflexivity. }
+      destruct Hglue as [k Hk].
+      exists (k + n2), s2. split; [exact Hinv2|]. intros f. specialize (Hr2' f).
+      rewrite <- Nat.add_assoc, Hk.
+      destruct (P.run_simples rho1 (m2 :: r2) v1) as [[rho2 vv]|xx].
+      + rewrite Hr2'. rewrite HQ, !app_length. subst pops.
+        replace (length pre + (length cc + (length (if P.is_expr_simple m then [opPopTop] else []) + length cr)))
+          with (length pre + length cc + length (if P.is_expr_simple m then [opPopTop] else []) + length cr) by lia.
+        reflexivity.
+      + exact Hr2'.
   Qed.
 
-  Lemma vm_prog : forall l rho s k base pre post last,
-    l <> [] -> length rho = k -> vm_inv rho (P.ndecls l) s -> P.wf_stmts k l = true ->
-    instr = pre ++ fst (P.pcode k base l) ++ post ->
-    (forall i kk, nth_error (snd (P.pcode k base l)) i = Some kk -> nth (base + i) (code_consts c) (KInt 0) = kk) ->
+  (* a whole branch: Nil for an empty one *)
+  Lemma vm_block l rho room s base pre post :
+    vm_inv rho room s -> forallb (P.wf_simple (length rho)) l = true ->
+    instr = pre ++ fst (P.block_code base l) ++ post ->
+    (forall i kk, nth_error (snd (P.block_code base l)) i = Some kk -> nth (base + i) (code_consts c) (KInt 0) = kk) ->
+    below + P.simples_need l <= MAXSTACK ->
+    exists n s',
+      (match P.run_simples rho l F.VNil with inl (rho', _) => vm_inv rho' room s' | inr _ => True end) /\
+      forall f,
+        match P.run_simples rho l F.VNil with
+        | inr x => runs (n + f) (length pre) [] s = (RErr (cls x) s', defers)
+        | inl (rho', v) => runs (n + f) (length pre) [] s =
+                           runs f (length pre + length (fst (P.block_code base l))) [inj v] s'
+        end.
+  Proof.
+    intros Hinv Hwf Hi Hc Hn. destruct l as [|m r].
+    - cbn [P.block_code fst snd P.run_simples] in *. exists 1, s. split; [exact Hinv|]. intros f. cbn [Nat.add length].
+      rewrite (step_push tabs c below frames free defers is_main s f (length pre) [] opNil VNil);
+        [rewrite Nat.add_1_r; reflexivity|rewrite Hi; apply at0|auto|pose proof (simples_need_pos []); cbn [length]; lia].
+    - assert (Hne : m :: r <> []) by discriminate.
+      exact (vm_simples (m :: r) rho room s base pre post F.VNil Hne Hinv Hwf Hi Hc Hn).
+  Qed.
+  (* ---------------------------------------------------------------- one top-level statement *)
+  Lemma vm_stmt rho room s st base pre post :
+    vm_inv rho (P.ndecls [st] + room) s -> PF.wf_stmt (length rho) st = true ->
+    instr = pre ++ fst (P.stmt_code (length rho) base st) ++ post ->
+    (forall i kk, nth_error (snd (P.stmt_code (length rho) base st)) i = Some kk -> nth (base + i) (code_consts c) (KInt 0) = kk) ->
+    below + P.stmt_need st <= MAXSTACK ->
+    exists n s',
+      (match P.run_stmt rho st with inl (rho', _) => vm_inv rho' room s' | inr _ => True end) /\
+      forall f,
+        match P.run_stmt rho st with
+        | inr x => runs (n + f) (length pre) [] s = (RErr (cls x) s', defers)
+        | inl (rho', v) => runs (n + f) (length pre) [] s =
+                           runs f (length pre + length (fst (P.stmt_code (length rho) base st)))
+                                (if P.is_expr_stmt st then [inj v] else []) s'
+        end.
+  Proof.
+    intros Hinv Hwf Hi Hc Hn.
+    destruct st as [e|i e|e|cnd t el]; cbn [P.stmt_code PF.wf_stmt P.is_expr_stmt P.run_stmt P.stmt_need P.ndecls Nat.add] in *.
+    - (* x := e *)
+      pose proof (vm_inv_globals_ok rho _ s Hinv) as Hg.
+      destruct (F.cexp base e) as [ce ke] eqn:Ee. cbn [fst snd] in *.
+      assert (Hi' : instr = pre ++ fst (F.cexp base e) ++ ([opStoreGlobal; N.of_nat (length rho)] ++ post))
+        by (rewrite Ee; cbn [fst]; rewrite Hi, <- !app_assoc; reflexivity).
+      assert (Hc' : forall i kk, nth_error (snd (F.cexp base e)) i = Some kk -> nth (base + i) (code_consts c) (KInt 0) = kk)
+        by (rewrite Ee; exact Hc).
+      destruct (vm_scalar tabs c below frames free defers is_main s rho Hg e base pre _ [] Hwf Hi' Hc' ltac:(cbn [length]; lia)) as [n Hr].
+      rewrite Ee in Hr. cbn [fst] in Hr. unfold outcome_of in Hr.
+      destruct (F.sev rho e) as [v|x].
+      + exists (n + 1), (upd_globals s (lset (globals s) (length rho) (inj v))).
+        split; [apply vm_inv_decl; exact Hinv|]. intros f.
+        rewrite <- Nat.add_assoc, Hr. cbn [Nat.add].
+        assert (Hx : instr = (pre ++ ce) ++ opStoreGlobal :: N.of_nat (length rho) :: post) by (rewrite Hi, <- !app_assoc; reflexivity).
+        rewrite (step_store f (length pre + length ce) [] (inj v) s) by (rewrite Hx, <- app_length; apply at0).
+        assert (E : nth (length pre + length ce + 1) instr 0%N = N.of_nat (length rho)) by (rewrite Hx, <- app_length; apply at1).
+        rewrite E, Nat2N.id, app_length. cbn [length].
+        replace (length pre + (length ce + 2)) with (length pre + length ce + 2) by lia. reflexivity.
+      + exists n, s. split; [exact Logic.I|]. intros f. exact (Hr f).
+    - (* x = e *)
+      exact (vm_simple rho room s (P.MSet i e) base pre post Hinv Hwf Hi Hc Hn).
+    - (* e *)
+      exact (vm_simple rho room s (P.MExpr e) base pre post Hinv Hwf Hi Hc Hn).
+    - (* if *)
+      pose proof (vm_inv_globals_ok rho _ s Hinv) as Hg.
+      apply andb_true_iff in Hwf. destruct Hwf as [Hwct Hwe]. apply andb_true_iff in Hwct. destruct Hwct as [Hwc Hwt].
+      destruct (F.cexp base cnd) as [cc kc] eqn:Ec.
+      destruct (P.block_code (base + length kc) t) as [ct kt] eqn:Et.
+      destruct (P.block_code (base + length kc + length kt) el) as [ce ke] eqn:Ee. cbn [fst snd] in *.
+      set (offF := (F.nlenN ct + 4)%N) in *. set (offJ := (F.nlenN ce + 2)%N) in *.
+      assert (HoffF : N.to_nat offF = length ct + 4) by (unfold offF, F.nlenN; rewrite N2Nat.inj_add, Nat2N.id; reflexivity).
+      assert (HoffJ : N.to_nat offJ = length ce + 2) by (unfold offJ, F.nlenN; rewrite N2Nat.inj_add, Nat2N.id; reflexivity).
+      assert (Hlen : length (cc ++ [opPopJumpForwardIfFalse; offF] ++ ct ++ [opJumpForward; offJ] ++ ce) =
+                     length cc + 2 + length ct + 2 + length ce) by (rewrite !app_length; cbn [length]; lia).
+      (* the condition *)
+      assert (Hic : instr = pre ++ fst (F.cexp base cnd) ++ ([opPopJumpForwardIfFalse; offF] ++ ct ++ [opJumpForward; offJ] ++ ce ++ post))
+        by (rewrite Ec; cbn [fst]; rewrite Hi, <- !app_assoc; reflexivity).
+      assert (Hkc : forall i kk, nth_error (snd (F.cexp base cnd)) i = Some kk -> nth (base + i) (code_consts c) (KInt 0) = kk).
+      { rewrite Ec. cbn [snd]. intros i kk Hik. apply Hc. rewrite nth_error_app1; [exact Hik|]. apply nth_error_Some. congruence. }
+      destruct (vm_scalar tabs c below frames free defers is_main s rho Hg cnd base pre _ [] Hwc Hic Hkc ltac:(cbn [length]; lia)) as [n1 Hr1].
+      rewrite Ec in Hr1. cbn [fst] in Hr1. unfold outcome_of in Hr1.
+      destruct (F.sev rho cnd) as [vc|xc].
+      2:{ exists n1, s. split; [exact Logic.I|]. intros f. exact (Hr1 f). }
+      set (Pp := pre ++ cc).
+      assert (HP : length Pp = length pre + length cc) by (unfold Pp; apply app_length).
+      assert (Hc1 : instr = Pp ++ opPopJumpForwardIfFalse :: offF :: (ct ++ [opJumpForward; offJ] ++ ce ++ post))
+        by (rewrite Hi; unfold Pp; rewrite <- !app_assoc; reflexivity).
+      assert (Hs1 : forall f, runs (S f) (length Pp) [inj vc] s =
+                              runs f (if F.struthy vc then length Pp + 2 else length Pp + (length ct + 4)) [] s).
+      { intros f.
+        rewrite (step_popjump tabs c below frames free defers is_main s f (length Pp) [] (inj vc) (F.struthy vc) opPopJumpForwardIfFalse);
+          [|rewrite Hc1; apply at0|auto|apply truthy_inj].
+        assert (E : nth (length Pp + 1) instr 0%N = offF) by (rewrite Hc1; apply at1).
+        rewrite E, HoffF. change (opPopJumpForwardIfFalse =? 12)%N with true. cbn iota.
+        destruct (F.struthy vc); reflexivity. }
+      assert (Hkrest : forall i kk, nth_error (kt ++ ke) i = Some kk -> nth (base + length kc + i) (code_consts c) (KInt 0) = kk).
+      { intros i kk Hik. rewrite <- Nat.add_assoc. apply Hc.
+        rewrite nth_error_app2 by lia. replace (length kc + i - length kc) with i by lia. exact Hik. }
+      destruct (F.struthy vc) eqn:Etr.
+      + (* then-branch, followed by the jump over the else-branch *)
+        set (Q := Pp ++ [opPopJumpForwardIfFalse; offF]).
+        assert (HQ : length Q = length Pp + 2) by (unfold Q; rewrite app_length; reflexivity).
+        assert (Hit : instr = Q ++ fst (P.block_code (base + length kc) t) ++ ([opJumpForward; offJ] ++ ce ++ post))
+          by (rewrite Et; cbn [fst]; rewrite Hi; unfold Q, Pp; rewrite <- !app_assoc; reflexivity).
+        assert (Hkt : forall i kk, nth_error (snd (P.block_code (base + length kc) t)) i = Some kk ->
+                                   nth (base + length kc + i) (code_consts c) (KInt 0) = kk).
+        { rewrite Et. cbn [snd]. intros i kk Hik. apply Hkrest. rewrite nth_error_app1; [exact Hik|]. apply nth_error_Some. congruence. }
+        destruct (vm_block t rho room s (base + length kc) Q _ Hinv Hwt Hit Hkt ltac:(lia)) as [n2 [s2 [Hinv2 Hr2]]].
+        rewrite Et in Hr2. cbn [fst] in Hr2. rewrite HQ in Hr2.
+        destruct (P.run_simples rho t F.VNil) as [[rho' v]|x].
+        * exists (n1 + (1 + (n2 + 1))), s2. split; [exact Hinv2|]. intros f.
+          rewrite <- Nat.add_assoc, Hr1, <- HP.
+          replace (1 + (n2 + 1) + f) with (S (n2 + S f)) by lia. rewrite Hs1, Hr2.
+          assert (Hj : instr = (Q ++ ct) ++ opJumpForward :: offJ :: (ce ++ post))
+            by (rewrite Hi; unfold Q, Pp; rewrite <- !app_assoc; reflexivity).
+          assert (HQt : length (Q ++ ct) = length Pp + 2 + length ct) by (rewrite app_length, HQ; reflexivity).
+          rewrite (step_jump tabs c below frames free defers is_main s2 f (length Pp + 2 + length ct) [inj v]); [|rewrite Hj, <- HQt; apply at0].
+          assert (E : nth (length Pp + 2 + length ct + 1) instr 0%N = offJ) by (rewrite Hj, <- HQt; apply at1).
+          rewrite E, HoffJ, Hlen.
+          replace (length pre + (length cc + 2 + length ct + 2 + length ce)) with (length Pp + 2 + length ct + (length ce + 2)) by lia.
+          reflexivity.
+        * exists (n1 + (1 + n2)), s2. split; [exact Logic.I|]. intros f.
+          rewrite <- Nat.add_assoc, Hr1, <- HP. replace (1 + n2 + f) with (S (n2 + f)) by lia. rewrite Hs1. exact (Hr2 f).
+      + (* else-branch *)
+        set (Q := Pp ++ [opPopJumpForwardIfFalse; offF] ++ ct ++ [opJumpForward; offJ]).
+        assert (HQ : length Q = length Pp + (length ct + 4)) by (unfold Q; rewrite !app_length; cbn [length]; lia).
+        assert (Hie : instr = Q ++ fst (P.block_code (base + length kc + length kt) el) ++ post)
+          by (rewrite Ee; cbn [fst]; rewrite Hi; unfold Q, Pp; rewrite <- !app_assoc; reflexivity).
+        assert (Hke : forall i kk, nth_error (snd (P.block_code (base + length kc + length kt) el)) i = Some kk ->
+                                   nth (base + length kc + length kt + i) (code_consts c) (KInt 0) = kk).
+        { rewrite Ee. cbn [snd]. intros i kk Hik. rewrite <- Nat.add_assoc. apply Hkrest.
+          rewrite nth_error_app2 by lia. replace (length kt + i - length kt) with i by lia. exact Hik. }
+        destruct (vm_block el rho room s (base + length kc + length kt) Q post Hinv Hwe Hie Hke ltac:(lia)) as [n2 [s2 [Hinv2 Hr2]]].
+        rewrite Ee in Hr2. cbn [fst] in Hr2. rewrite HQ in Hr2.
+        exists (n1 + (1 + n2)), s2. split; [exact Hinv2|]. intros f.
+        rewrite <- Nat.add_assoc, Hr1, <- HP. replace (1 + n2 + f) with (S (n2 + f)) by lia. rewrite Hs1.
+        specialize (Hr2 f). destruct (P.run_simples rho el F.VNil) as [[rho' v]|x]; [|exact Hr2].
+        rewrite Hr2, Hlen.
+        replace (length pre + (length cc + 2 + length ct + 2 + length ce)) with (length Pp + (length ct + 4) + length ce) by lia.
+        reflexivity.
+  Qed.
+
+  (* ---------------------------------------------------------------- the whole statement list *)
+  Lemma stmt_need_pos st : 1 <= P.stmt_need st.
+  Proof. destruct st as [e|i e|e|cnd t el]; cbn [P.stmt_need]; try apply need_pos. pose proof (need_pos cnd). lia. Qed.
+
+  Lemma vm_prog : forall l rho s base pre post last,
+    l <> [] -> vm_inv rho (P.ndecls l) s -> P.wf_stmts (length rho) l = true ->
+    instr = pre ++ fst (P.pcode (length rho) base l) ++ post ->
+    (forall i kk, nth_error (snd (P.pcode (length rho) base l)) i = Some kk -> nth (base + i) (code_consts c) (KInt 0) = kk) ->
     below + P.max_need l <= MAXSTACK ->
     exists n s', forall f,
       match P.run_stmts rho l last with
       | inr x => runs (n + f) (length pre) [] s = (RErr (cls x) s', defers)
-      | inl v => runs (n + f) (length pre) [] s = runs f (length pre + length (fst (P.pcode k base l))) [inj v] s'
+      | inl v => runs (n + f) (length pre) [] s = runs f (length pre + length (fst (P.pcode (length rho) base l))) [inj v] s'
       end.
   Proof.
-    induction l as [|st r IH]; intros rho s k base pre post last Hne Hk Hinv Hwf Hi Hc Hn; [contradiction|].
+    induction l as [|st r IH]; intros rho s base pre post last Hne Hinv Hwf Hi Hc Hn; [contradiction|].
     rewrite PF.wf_stmts_cons in Hwf. apply andb_true_iff in Hwf. destruct Hwf as [Hws Hwr].
+    pose proof (stmt_need_pos st) as Hpos.
     rewrite PF.max_need_cons in Hn. rewrite PF.run_stmts_cons.
-    pose proof (vm_inv_globals_ok rho _ s Hinv) as Hg.
+    assert (Hd : P.ndecls (st :: r) = P.ndecls [st] + P.ndecls r) by (destruct st; reflexivity).
+    rewrite Hd in Hinv.
     destruct r as [|st2 r2].
     - (* the last statement *)
       rewrite PF.pcode_single in Hi, Hc |- *.
-      destruct (P.stmt_code k base st) as [cc ks] eqn:Es. cbn [fst snd] in *.
-      assert (Hi' : instr = pre ++ fst (P.stmt_code k base st) ++ ((if P.is_expr_stmt st then [] else [opNil]) ++ post))
+      destruct (P.stmt_code (length rho) base st) as [cc ks] eqn:Es. cbn [fst snd] in *.
+      assert (Hi' : instr = pre ++ fst (P.stmt_code (length rho) base st) ++ ((if P.is_expr_stmt st then [] else [opNil]) ++ post))
         by (rewrite Es; cbn [fst]; rewrite Hi, <- !app_assoc; reflexivity).
-      assert (Hc' : forall i kk, nth_error (snd (P.stmt_code k base st)) i = Some kk -> nth (base + i) (code_consts c) (KInt 0) = kk)
+      assert (Hc' : forall i kk, nth_error (snd (P.stmt_code (length rho) base st)) i = Some kk -> nth (base + i) (code_consts c) (KInt 0) = kk)
         by (rewrite Es; exact Hc).
-      destruct (vm_stmt rho s k st base pre _ Hk Hg Hws Hi' Hc' ltac:(lia)) as [n Hr].
+      destruct (vm_stmt rho _ s st base pre _ Hinv Hws Hi' Hc' ltac:(lia)) as [n [s1 [_ Hr]]].
       rewrite Es in Hr. cbn [fst] in Hr.
-      destruct (F.sev rho (P.stmt_exp st)) as [v|x].
+      destruct (P.run_stmt rho st) as [[rho1 v1]|x] eqn:Er.
       + cbn [P.run_stmts].
         destruct (P.is_expr_stmt st) eqn:Ex.
-        * exists n, (state_after k s st v). intros f. rewrite Hr, app_nil_r.
-          destruct st; try discriminate. reflexivity.
-        * exists (n + 1), (state_after k s st v). intros f. rewrite <- Nat.add_assoc, Hr. cbn [Nat.add].
+        * exists n, s1. intros f. rewrite Hr, app_nil_r. reflexivity.
+        * exists (n + 1), s1. intros f. rewrite <- Nat.add_assoc, Hr. cbn [Nat.add].
           assert (Hx : instr = (pre ++ cc) ++ opNil :: post) by (rewrite Hi, <- !app_assoc; reflexivity).
-          rewrite (step_push tabs c below frames free defers is_main (state_after k s st v) f (length pre + length cc) [] opNil VNil);
-            [|rewrite Hx, <- app_length; apply at0|auto|pose proof (need_pos (P.stmt_exp st)); cbn [length]; lia].
+          rewrite (step_push tabs c below frames free defers is_main s1 f (length pre + length cc) [] opNil VNil);
+            [|rewrite Hx, <- app_length; apply at0|auto|cbn [length]; lia].
           rewrite app_length. cbn [length].
           replace (length pre + (length cc + 1)) with (S (length pre + length cc)) by lia.
-          destruct st; try discriminate; reflexivity.
-      + exists n, s. intros f. exact (Hr f).
+          destruct st as [e|i e|e|cnd t el]; try discriminate; cbn [P.run_stmt] in Er;
+            destruct (F.sev rho e); inversion Er; reflexivity.
+      + exists n, s1. intros f. exact (Hr f).
     - (* more statements follow *)
       assert (Hr2 : st2 :: r2 <> []) by discriminate.
       rewrite PF.pcode_cons2 in Hi, Hc |- *.
-      destruct (P.stmt_code k base st) as [cc ks] eqn:Es.
-      destruct (P.pcode (PF.next_k k st) (base + length ks) (st2 :: r2)) as [cr kr] eqn:Ep. cbn [fst snd] in *.
+      destruct (P.stmt_code (length rho) base st) as [cc ks] eqn:Es.
+      destruct (P.pcode (PF.next_k (length rho) st) (base + length ks) (st2 :: r2)) as [cr kr] eqn:Ep. cbn [fst snd] in *.
       set (pops := if P.is_expr_stmt st then [opPopTop] else []) in *.
-      assert (Hi' : instr = pre ++ fst (P.stmt_code k base st) ++ (pops ++ cr ++ post))
+      assert (Hi' : instr = pre ++ fst (P.stmt_code (length rho) base st) ++ (pops ++ cr ++ post))
         by (rewrite Es; cbn [fst]; rewrite Hi, <- !app_assoc; reflexivity).
-      assert (Hc' : forall i kk, nth_error (snd (P.stmt_code k base st)) i = Some kk -> nth (base + i) (code_consts c) (KInt 0) = kk).
+      assert (Hc' : forall i kk, nth_error (snd (P.stmt_code (length rho) base st)) i = Some kk -> nth (base + i) (code_consts c) (KInt 0) = kk).
       { rewrite Es. cbn [snd]. intros i kk Hik. apply Hc. rewrite nth_error_app1; [exact Hik|]. apply nth_error_Some. congruence. }
-      destruct (vm_stmt rho s k st base pre _ Hk Hg Hws Hi' Hc' ltac:(lia)) as [n Hr].
+      destruct (vm_stmt rho _ s st base pre _ Hinv Hws Hi' Hc' ltac:(lia)) as [n [s1 [Hinv1 Hr]]].
       rewrite Es in Hr. cbn [fst] in Hr.
-      destruct (F.sev rho (P.stmt_exp st)) as [v|x].
-      2:{ exists n, s. intros f. exact (Hr f). }
-      (* the state and the variable values after this statement *)
-      assert (Hd : P.ndecls (st :: st2 :: r2) = P.ndecls [st] + P.ndecls (st2 :: r2)) by (destruct st; reflexivity).
-      rewrite Hd in Hinv.
-      destruct (vm_inv_next rho s k st v Hk Hws _ Hinv) as [Hinv' Hlen'].
+      destruct (P.run_stmt rho st) as [[rho1 v1]|x] eqn:Er.
+      2:{ exists n, s1. intros f. exact (Hr f). }
+      pose proof (PF.run_stmt_length rho st rho1 v1 Er) as Hlen1.
       set (Q := pre ++ cc ++ pops).
       assert (HQ : length Q = length pre + length cc + length pops) by (unfold Q; rewrite !app_length; lia).
-      assert (Hi2 : instr = Q ++ fst (P.pcode (PF.next_k k st) (base + length ks) (st2 :: r2)) ++ post)
+      rewrite <- Hlen1 in Ep, Hwr.
+      assert (Hi2 : instr = Q ++ fst (P.pcode (length rho1) (base + length ks) (st2 :: r2)) ++ post)
         by (rewrite Ep; cbn [fst]; rewrite Hi; unfold Q; rewrite <- !app_assoc; reflexivity).
-      assert (Hc2 : forall i kk, nth_error (snd (P.pcode (PF.next_k k st) (base + length ks) (st2 :: r2))) i = Some kk ->
+      assert (Hc2 : forall i kk, nth_error (snd (P.pcode (length rho1) (base + length ks) (st2 :: r2))) i = Some kk ->
                                  nth (base + length ks + i) (code_consts c) (KInt 0) = kk).
       { rewrite Ep. cbn [snd]. intros i kk Hik. rewrite <- Nat.add_assoc. apply Hc.
         rewrite nth_error_app2 by lia. replace (length ks + i - length ks) with i by lia. exact Hik. }
-      destruct (IH (PF.next_rho rho st v) (state_after k s st v) (PF.next_k k st) (base + length ks) Q post (PF.stmt_value st v)
-                   Hr2 Hlen' Hinv' Hwr Hi2 Hc2 ltac:(lia)) as [n2 [s2 Hr2']].
+      destruct (IH rho1 s1 (base + length ks) Q post v1 Hr2 Hinv1 Hwr Hi2 Hc2 ltac:(lia)) as [n2 [s2 Hr2']].
       rewrite Ep in Hr2'. cbn [fst] in Hr2'.
-      (* glue: this statement, the PopTop after an expression statement, the rest *)
-      assert (Hglue : exists m, forall f,
-                 runs (m + f) (length pre) [] s = runs f (length Q) [] (state_after k s st v)).
+      assert (Hglue : exists k, forall f, runs (k + f) (length pre) [] s = runs f (length Q) [] s1).
       { destruct (P.is_expr_stmt st) eqn:Ex; subst pops.
         - exists (n + 1). intros f. rewrite <- Nat.add_assoc, Hr. cbn [Nat.add].
           assert (Hx : instr = (pre ++ cc) ++ opPopTop :: (cr ++ post)) by (rewrite Hi, <- !app_assoc; reflexivity).
-          rewrite (step_pop f (length pre + length cc) [] (inj v) (state_after k s st v)) by (rewrite Hx, <- app_length; apply at0).
+          rewrite (step_pop f (length pre + length cc) [] (inj v1) s1) by (rewrite Hx, <- app_length; apply at0).
           rewrite HQ. cbn [length]. replace (length pre + length cc + 1) with (S (length pre + length cc)) by lia. reflexivity.
         - exists n. intros f. rewrite Hr, HQ. cbn [length]. rewrite Nat.add_0_r. reflexivity. }
-      destruct Hglue as [m Hm].
-      exists (m + n2), s2. intros f. specialize (Hr2' f).
-      rewrite <- Nat.add_assoc, Hm.
-      destruct (P.run_stmts (PF.next_rho rho st v) (st2 :: r2) (PF.stmt_value st v)) as [vv|xx].
+      destruct Hglue as [k Hk].
+      exists (k + n2), s2. intros f. specialize (Hr2' f).
+      rewrite <- Nat.add_assoc, Hk.
+      destruct (P.run_stmts rho1 (st2 :: r2) v1) as [vv|xx].
       + rewrite Hr2'. rewrite HQ, !app_length. subst pops.
         replace (length pre + (length cc + (length (if P.is_expr_stmt st then [opPopTop] else []) + length cr)))
           with (length pre + length cc + length (if P.is_expr_stmt st then [opPopTop] else []) + length cr) by lia.
